@@ -35,6 +35,8 @@ def run(fb, rep, tier):
     c2_probe_depth(fb, rep)
     c3_extend(fb, rep)
     C04.c1_encoding(fb, rep, 'C13.1')
+    from . import C12
+    C12.c5_probe_scope(fb, rep, 'C13.4')
 
 
 def c1_dtm_blocks(fb, rep):
